@@ -55,19 +55,27 @@ theorem CInv_step {s s' : State} {e : Event} (hi : CInv s) (h : step? s e = some
     · simp only; rw [← h1, hw, hc]; simp [cmdFrames]
     · exact h2
   case wdo =>
-    simp only [step?] at h; unfold stepWDo at h; leaves h
-    · subst h
-      rename_i hw
+    simp only [step?] at h; unfold stepWDo at h
+    split at h
+    · cases h
+    split at h
+    · cases h
+    · rename_i hw
+      simp only [Option.some.injEq] at h
+      subst h
       obtain ⟨h1, h2⟩ := hi
       constructor
       · simp only; rw [← h1, hw]; simp [cmdFrames]
       · simp
-    · subst h
-      rename_i f hw _
+    · rename_i f hw
+      split at h
+      · cases h
+      simp only [Option.some.injEq] at h
+      subst h
       obtain ⟨h1, h2⟩ := hi
       constructor
       · simp only; rw [← h1, hw]; simp [cmdFrames]
-      · simp only [List.length_append, List.length_singleton]; omega
+      · simp only [List.length_append, List.length_singleton]; split <;> omega
   case wblock =>
     simp only [step?] at h; unfold stepWBlock at h; leaves h; subst h
     obtain ⟨h1, h2⟩ := hi
